@@ -51,6 +51,7 @@ static void check_input(Reporter& rep, const GpInput& in, bool verbose, const st
   RTree tree = rtree_build(g, SC, 1, margin, payload);
   rep.add("tree_cells", tree.cells.size());
   std::string cur_variant; int cur_ct = 0, cur_fr = 0;
+  arm_watchdog(300);   // CPU-time limit per input: a library call that does not return is attributed to this case (crash_signal_26)
   rep.current_case = [&]() { return key(in, cur_ct, cur_fr, cur_variant); };
 
   for (int fr = 0; fr < 4; ++fr) {
@@ -168,7 +169,7 @@ static void check_input(Reporter& rep, const GpInput& in, bool verbose, const st
       }
     }
   }
-  rep.current_case = nullptr;
+  arm_watchdog(0); rep.current_case = nullptr;
   rep.sample("S=" + pstr(S) + " C=" + pstr(C));
 }
 
